@@ -285,10 +285,22 @@ func (rs *runState) runShard(sp *Space, lo, hi int) {
 			o.add(sp, cur, Result{Viol: &Violation{Sub: "iso", Sig: sig, Detail: "worker process " + strings.ToLower(kind) + ": " + firstLines(lastMsg, 6)}, Nontrivial: true})
 			o.Extra["worker_deaths"] = 1
 			rs.merge(sp, o)
-		} else if confirmed > 0 {
+		} else if confirmed > 0 && !hung {
 			fmt.Fprintf(os.Stderr, "harness nondeterminism: %s case %d crashed %d/%d times alone\n", sp.Name, cur, confirmed, need)
 			os.Exit(3)
 		} else {
+			if hung {
+				// a hang (no progress within the per-case limit) that does not reproduce every
+				// time the case runs alone is a slow case on a loaded machine, not a verdict:
+				// the run is marked as not exhaustive and goes on (no wall-clock oracle)
+				fmt.Fprintf(os.Stderr, "note: %s case %d exceeded the per-case time limit %d/%d times alone; counted as unconfirmed, run marked not exhaustive\n", sp.Name, cur, confirmed, need)
+				rs.mu.Lock()
+				rs.capped = true
+				rs.mu.Unlock()
+				o := newShardOut()
+				o.Extra["unconfirmed_hangs"] = 1
+				rs.merge(sp, o)
+			}
 			// did not reproduce alone: run it normally
 			o2, _, _ := runWorker(rs.chk.ID, rs.tier, sp.Name, cur, cur+1, "", caseTO)
 			if o2 != nil {
